@@ -44,9 +44,10 @@ def step_cfg(tfs, rtf, n, w, nsym, fills, feed=0, gen=0, early=False, inv=STEP_I
             + "".join("INVARIANT %s\n" % i for i in inv))
 
 
-def fast_cfg(rtfs, rtf, n, w, nsym, fills, chunk=0, gen=0, inv=FAST_INV):
+def fast_cfg(rtfs, rtf, n, w, nsym, fills, chunk=0, gen=0, inv=FAST_INV, partial_raises=False):
     return ("SPECIFICATION Spec\nCHECK_DEADLOCK FALSE\nCONSTANTS RouteTFs = %s RouteTF = %d N = %d W = %d NSym = %d "
-            "MaxFills = %d ChunkSkew = %d GenSkew = %d\n" % (tla_set(rtfs), rtf, n, w, nsym, fills, chunk, gen)
+            "MaxFills = %d ChunkSkew = %d GenSkew = %d PartialChunkRaises = %s\n" % (
+                tla_set(rtfs), rtf, n, w, nsym, fills, chunk, gen, "TRUE" if partial_raises else "FALSE")
             + "".join("INVARIANT %s\n" % i for i in inv))
 
 
@@ -55,7 +56,7 @@ def model_part(ctx):
     q_step = [({2, 3}, 2, 6, 0, 1, 2), ({2, 3}, 3, 6, 6, 2, 2), ({2, 3}, 1, 6, 0, 2, 1), ({3, 5, 15}, 5, 30, 0, 1, 1)]
     t_step = q_step + [({2, 3}, 2, 12, 6, 2, 2), ({3, 5, 15}, 15, 45, 15, 2, 2), ({5, 15}, 5, 60, 30, 2, 2),
                        ({3, 15}, 3, 45, 0, 2, 2)]
-    q_fast = [({2}, 2, 6, 0, 2, 2), ({3}, 3, 6, 0, 1, 2), ({2, 4}, 4, 8, 4, 2, 2), ({4, 6}, 4, 12, 0, 1, 2),
+    q_fast = [({2}, 2, 6, 0, 2, 2), ({2}, 2, 5, 0, 1, 2), ({3}, 3, 6, 0, 1, 2), ({2, 4}, 4, 8, 4, 2, 2), ({4, 6}, 4, 12, 0, 1, 2),
               ({1, 3}, 3, 6, 0, 1, 1), ({5, 15}, 5, 30, 0, 1, 1)]
     t_fast = q_fast + [({4, 6}, 6, 24, 12, 2, 2), ({3, 15}, 3, 45, 15, 2, 2), ({5, 15}, 15, 60, 30, 2, 2),
                        ({15}, 15, 60, 0, 2, 2)]
@@ -91,7 +92,8 @@ def model_part(ctx):
         ("FastSim", fast_cfg({2, 4}, 4, 8, 0, 1, 1, gen=1), "ChunkCausal", "fast: generate slice shifted by one"),
         ("FastSim", fast_cfg({2}, 2, 6, 0, 1, 1, chunk=1, inv=["StoreChunkCausal"]), "StoreChunkCausal",
          "fast: next chunk's candle readable"),
-        ("FastSim", fast_cfg({2}, 2, 5, 0, 1, 1), "NeverRaises", "fast: trailing partial chunk raises (documented quirk, C12)"),
+        ("FastSim", fast_cfg({2}, 2, 5, 0, 1, 1, partial_raises=True), "NeverRaises",
+         "fast: trailing partial chunk treated as a full one (the defect fixed by f8ad570d)"),
     ]
     res = tlc.run_parallel([dict(module=m, cfg_text=c, workers=1, timeout=300) for m, c, _, _ in seeded], max_procs=8)
     caught = []
